@@ -73,6 +73,7 @@ def gen(rng, tier, index):
         sw["frac"] = float(rng.uniform(0.2, 0.9))
         sw["touch_newest"] = bool(rng.random() < 0.5)
     plan = {"problem": spec, "cfg": cfg, "switch": sw, "bind_both": bool(rng.random() < 0.5)}
+    plan["target_across_switch"] = bool(rng.random() < 0.4)
     return plan
 
 
@@ -288,12 +289,35 @@ def execute(plan):
     c = dict(cfg)
     c["callback"] = {}
     c["update"] = {"mode": sw["mode"]}
+    if plan.get("target_across_switch") and sw["mode"] in ("rescale", "reweight"):
+        # place the target between the old and the new objective value at the switch point: the stop
+        # test of that iteration must look at the NEW value (scouting run without update actor)
+        s0 = dict(cfg)
+        s0.update(callback={}, ftarget=None)
+        S0 = Act(problem, s0).run()
+        stats["activations"] += 1
+        i_sw = sw["at"] - 2  # update call j happens in the (j-1)-th successful iteration
+        if S0.result is not None and 1 <= i_sw < len(S0.states):
+            f_at = S0.states[i_sw]["snap"]["fun"]
+            f_prev = S0.states[i_sw - 1]["snap"]["fun"]
+            f_new = switched_problem(problem, sw).f(np.array(S0.states[i_sw]["snap"]["x"], copy=True))
+            gap = min(f_new - f_at, f_prev - f_at)
+            if np.isfinite(gap) and gap > 0:
+                c["ftarget"] = float(f_at + 0.5 * gap)
+                stats["probe.target_across_switch"] += 1
     A = Act(problem, c, world=W, on_state=on_state, on_update=on_update).run()
     stats["activations"] += 1
     stats["events"] += A.n_events
     if A.result is None:
         if A.exc is not None and info["fired"]:
-            add("run_raised_after_rewrite", {"exception": repr(A.exc)[:300], "mode": sw["mode"]})
+            if sw["mode"] == "arbitrary" and isinstance(A.exc, np.linalg.LinAlgError):
+                # arbitrary rewrites belong to no objective: pairs that all satisfy the curvature
+                # condition can still differ by ten orders of magnitude in s.y, and the Cholesky
+                # factorisation of the middle matrix then breaks down numerically (a negative s.y
+                # would give NaN and a ValueError instead, which is still reported)
+                stats["nj.numerical_breakdown_on_inconsistent_history"] += 1
+            else:
+                add("run_raised_after_rewrite", {"exception": repr(A.exc)[:300], "mode": sw["mode"]})
         else:
             stats["nj.run_raised"] += 1
         return {"violations": viol, "stats": stats, "keys": keys, "digest": A.event_digest()}
@@ -301,6 +325,15 @@ def execute(plan):
         stats["nj.switch_not_reached"] += 1
         return {"violations": viol, "stats": stats, "keys": keys, "digest": A.event_digest(), "shape": {"mode": sw["mode"], "fired": False}}
     stats["fault.rewrite." + sw["mode"]] += 1
+    # the termination report must be true of the NEW objective (C04's oracle on a rewritten run)
+    if c.get("ftarget") is not None:
+        from . import c04
+
+        def add_report(clause, witness):
+            add("report_after_rewrite." + clause, dict(witness, mode=sw["mode"]))
+
+        c04.judge(A, dict(c, jac="callable"), problem, 1, 0, add_report, "rewritten run")
+        stats["or.report_after_rewrite"] += 1
     filt = [t for t in A.filter_log]
     dropped = sum(a_ - b_ for a_, b_ in filt)
     stats["probe.pairs_dropped_by_filter"] += dropped
